@@ -34,7 +34,7 @@ NEAR = [
 ]
 GLUE = [" ", ".", ",", "\n", "(", ")", "x", "/", ":", "7.5/", "CVSS:3.1/", "CVSS:3.", "3", "1", "é",
         "-", "\t", "CVSS:", "A"]
-ALPHABET = [V2MIN, V2OPT, V2PERM, V30, V31, V31OPT, V31X, V40, V2FULL, V31FULL] + NEAR + GLUE + ["_", "0", "²"]
+ALPHABET = [V2MIN, V2OPT, V2PERM, V30, V31, V31OPT, V31X, V40, V2FULL, V31FULL] + NEAR + GLUE + ["_", "0", "²", "[", "]", "`", "^", "\\", "@", "'"]
 
 
 def required(text):
